@@ -545,6 +545,23 @@ func genScript(r *lib.Rng, mode string, dp bool, n int, pf profile) []world {
 	}
 	placeHeight()
 	ready, auth, authr := 1, 1, 1
+	// sometimes the maintainer is not eligible from the start (and stays so for a while)
+	sticky := 0
+	if r.Chance(1, 5) {
+		switch r.Intn(3) {
+		case 0:
+			ready = 0
+		case 1:
+			auth, authr = 0, 0
+		default:
+			if dp {
+				auth = 0
+			} else {
+				authr = 0
+			}
+		}
+		sticky = r.Range(8, 30)
+	}
 	var ws []world
 	lagBudget := 2
 	for len(ws) < n {
@@ -552,12 +569,15 @@ func genScript(r *lib.Rng, mode string, dp bool, n int, pf profile) []world {
 		if r.Chance(1, 25) {
 			height += uint64(r.Range(1, 3))
 		}
-		if r.Chance(pf.pNotReady, 1000) {
+		if len(ws) < sticky {
+			// keep the initial ineligibility
+		} else if r.Chance(pf.pNotReady, 1000) {
 			ready = 1 - ready
 		} else if ready == 0 && r.Chance(1, 3) {
 			ready = 1
 		}
-		if r.Chance(pf.pNotAuth, 1000) {
+		if len(ws) < sticky {
+		} else if r.Chance(pf.pNotAuth, 1000) {
 			if r.Bool() {
 				auth = 1 - auth
 			} else {
@@ -771,14 +791,19 @@ func main() {
 		// not ready / not authorised / wrong kind of authorisation
 		nr := ok
 		nr.R = 0
-		add("corpus-loop-not-ready", "loop", false, rep(nr, 6))
+		add("corpus-loop-not-ready", "loop", false, rep(nr, 16))
+		add("corpus-epochs-not-ready", "epochs", true, rep(nr, 16))
 		na := ok
 		na.AR = 0
-		add("corpus-loop-not-authorized-refund", "loop", false, rep(na, 8))
+		add("corpus-loop-not-authorized-refund", "loop", false, rep(na, 16))
+		add("corpus-verify-not-authorized-refund", "verify", false, rep(na, 3))
+		add("corpus-epochs-not-authorized-refund", "epochs", false, rep(na, 16))
 		add("corpus-loop-direct-ignores-refund-auth", "loop", true, rep(na, 14))
 		na = ok
 		na.A = 0
-		add("corpus-loop-not-authorized-direct", "loop", true, rep(na, 8))
+		add("corpus-loop-not-authorized-direct", "loop", true, rep(na, 16))
+		add("corpus-verify-not-authorized-direct", "verify", true, rep(na, 3))
+		add("corpus-epochs-not-authorized-direct", "epochs", true, rep(na, 16))
 		add("corpus-loop-proxy-ignores-direct-auth", "loop", false, rep(na, 14))
 		add("corpus-verify-ok", "verify", false, rep(ok, 3))
 		add("corpus-verify-not-ready", "verify", false, rep(nr, 3))
@@ -815,7 +840,7 @@ func main() {
 				}
 			}
 		}
-		n := o.Count(400, len(all))
+		n := o.Count(260, 1200)
 		perm := rng.Fork("enum").Perm(len(all))
 		for i := 0; i < n && i < len(all); i++ {
 			p := all[perm[i]]
@@ -829,7 +854,7 @@ func main() {
 	// --- structured random histories
 	{
 		r := rng.Fork("random")
-		nLoop := o.Count(330, 6000)
+		nLoop := o.Count(230, 1500)
 		for i := 0; i < nLoop; i++ {
 			pf := profile{pErr: r.Range(0, 120), pNotReady: r.Range(0, 60), pNotAuth: r.Range(0, 60), bigL: r.Chance(1, 6)}
 			if r.Chance(1, 3) {
